@@ -169,8 +169,13 @@ func run(pl Plan) (res vfx.Result) {
 		}
 	}
 	// drain
-	for i := 0; i < 200 && p.Rec.PendingUser() > 0; i++ {
+	// (small packets and thousands of queued messages take long: wait as long as the backlog keeps shrinking)
+	lastN, lastChange := p.Rec.PendingUser(), p.Net.Now()
+	for p.Rec.PendingUser() > 0 && p.Net.Now()-lastChange < 10*time.Second {
 		time.Sleep(200 * time.Millisecond)
+		if n := p.Rec.PendingUser(); n != lastN {
+			lastN, lastChange = n, p.Net.Now()
+		}
 	}
 	time.Sleep(2 * time.Second)
 	p.Settle()
